@@ -55,6 +55,10 @@ func seqsOf(alpha []string, maxLen int) [][]string {
 }
 
 func (harness) Configs(tier string) []xplore.Config {
+	return xplore.WithReverse(configsBase(tier))
+}
+
+func configsBase(tier string) []xplore.Config {
 	var out []xplore.Config
 	bound, maxLen := 4, 2
 	if tier == "thorough" {
@@ -282,7 +286,7 @@ func (harness) Run(cfg xplore.Config, ch vrt.Chooser, trace bool) (xplore.Outcom
 	if d.part == "c" {
 		return runC(d, ch, trace)
 	}
-	res := vrt.Run(ch, vrt.Options{Trace: trace, EarlyTimers: true}, func() {
+	res := vrt.Run(ch, vrt.Options{Reverse: cfg.Reverse, Trace: trace, EarlyTimers: true}, func() {
 		tr := &tracer{}
 		var inner client.Client
 		handler := func(n client.Notification) error {
